@@ -299,6 +299,8 @@ type End struct {
 	OnClose    func()
 	// CloseDelay makes Close take that long (as closing a TLS connection can).
 	CloseDelay time.Duration
+	// Note is free for the owner of the pair (the harness keeps what the library's handshake announced here).
+	Note any
 	// CloseErr is what Close returns after having closed (tls.Conn.Close reports a failed close_notify this way).
 	CloseErr error
 	// Linger makes a Read or Write that fails because this end was closed take that long to return
